@@ -1079,7 +1079,7 @@ def call_external(interp, qual, args, kw, st, node):
     return V("unk", callterm(qual, args, kw), labels=labels, orig=frozenset([FRESH]))
 
 
-EXT_CLASSES = set()
+EXT_CLASSES = {"scipy.interpolate.interp1d"}
 
 
 def ext_construct(interp, qual, args, kw, st, node):
